@@ -78,5 +78,8 @@ try:
 finally:
     sh(["git", "-C", "/repo", "checkout", "--", "."])
     sh(["git", "-C", "/repo", "clean", "-fdq", "src"])
+    # the Gen/*.lean files were regenerated from the patched tree: regenerate them from the clean one
+    for t in ("t1_scratch", "t6_twiddles", "t4_scan", "t5_surface"):
+        sh([sys.executable, f"/verif/tools/{t}.py"])
 json.dump(res, open(os.path.join(cdir, "result.json"), "w"), indent=1)
 print(json.dumps(res, indent=1))
